@@ -160,7 +160,11 @@ def run(case):
     ops = np.array([np.array(e.rotation_matrix, float) for e in PointGroup(name).symmetry_ops])
     if not all(np.allclose(m @ m.T, np.eye(3)) for m in ops):
         raise Skip()
-    for how in ('name', 'stack'):
+    Q = oracle.quat_to_rot(case.get('conj', [0.3, -0.5, 0.7, 0.4]))
+    ops_name = ops
+    for how in ('name', 'stack', 'stack-conjugated'):
+        # the same point group in a rotated Cartesian frame: orthogonal operations Q g Q^T with non-integer entries
+        ops = np.einsum('ij,kjl,ml->kim', Q, ops_name, Q) if how == 'stack-conjugated' else ops_name
         s = gcall(o.symmetrize, sym_group=name) if how == 'name' else gcall(o.symmetrize, sym_ops=ops.transpose(1, 2, 0))
         sv = np.asarray(s.vectors, float)
         nb, no = want.shape[1], len(ops)
@@ -180,6 +184,22 @@ def run(case):
         raise Violation('spherical-invertible', '')
     if np.abs(r - ln[..., 0]).max() > 1e-9:
         raise Violation('lengths-are-periodic-distances', '')
+    # the same analysis repeated after the trajectory object has grown in place (nothing cached on the object may go stale)
+    k = case.get('extend_at')
+    if k and 1 <= k < T:
+        pos = np.array(gcall(lambda: traj.positions))
+        sym = [sp.symbol for sp in traj.species]
+        Mx = np.array(case['lattice']['matrix'])
+        ta = cases.trajectory(pos[:k], sym, Mx, 1e-15, 300.0, case.get('species_kind', 'Species'))
+        tb = cases.trajectory(pos[k:], sym, Mx, 1e-15, 300.0, case.get('species_kind', 'Species'))
+        o1 = gcall(Orientations, ta, 'P', 'S')
+        align_bonds(np.asarray(o1.vectors, float), want[:k], case)
+        gcall(ta.extend, tb)
+        o2 = gcall(Orientations, ta, 'P', 'S')
+        v2 = np.asarray(o2.vectors, float)
+        if v2.shape != want.shape:
+            raise Violation('vectors-after-extend', f'orientation vectors of a {k}-frame trajectory extended in place to {T} frames have shape {v2.shape}, expected {want.shape}')
+        align_bonds(v2, want, case)
     fam, ori = case['lattice']['family'], case['lattice']['orient']
     skew = fam in ('hexagonal', 'rhombohedral', 'monoclinic', 'triclinic') or ori == 'rot'
     labels = [fam, 'orient-' + ori, 'pg-' + name]
@@ -267,7 +287,8 @@ def mol_cases(draw, tier, min_frames=2):
     return {'lattice': lat, 'frames': T, 'centres': centres, 'bonds': bonds, 'quats': quats, 'drift': drift,
             'order': draw(st.permutations(list(range(15)))), 'matrix': [[draw(st.floats(-2, 2)) for _ in range(3)] for _ in range(3)],
             'image_shift': ([[[draw(st.sampled_from([0, 0, 0, 1, -1, 3])) for _ in range(3)] for _ in range(5 * Nc)] for _ in range(T)] if draw(st.integers(0, 3)) == 0 else None),
-            'point_group': draw(st.sampled_from(PG)), 'species_kind': draw(st.sampled_from(['Species', 'Element'])), 'normalized': draw(st.booleans())}
+            'point_group': draw(st.sampled_from(PG)), 'species_kind': draw(st.sampled_from(['Species', 'Element'])), 'normalized': draw(st.booleans()),
+            'conj': draw(st.sampled_from([[0.3, -0.5, 0.7, 0.4], [0.9, 0.1, 0.1, 0.4], [0.5, 0.5, 0.5, 0.5]])), 'extend_at': draw(st.integers(0, 6))}
 
 
 SUBS = [
